@@ -128,6 +128,23 @@ def rand_line(rng, toks, n):
     return "".join(rng.choice(toks) for _ in range(n))
 
 
+
+def coqchk_except_sweeps(c):
+    """thorough tier: coqchk over the closure of the property file, except Fold/Utf8Grammar.v whose
+    exhaustive vm_compute sweeps (1.1 million byte sequences) coqchk would re-evaluate without the VM
+    (> 15 min); that file is checked by coqc's kernel only, which the evidence states."""
+    mod = "PP.Props.Properties_%s" % c.prop
+    with Lock("coq"):
+        rc, out = run(["coqchk", "-silent", "-o", "-Q", "theories", "PP", "-admit", "PP.Fold.Utf8Grammar", mod], cwd=COQ, timeout=1500)
+    text = out.decode("utf-8", "replace")
+    ok = rc == 0 and "type-in-type: <none>" in text and "unsafe (co)fixpoints: <none>" in text
+    c.cov["coqchk"] = ("ok" if ok else "FAILED") + " (Utf8Grammar admitted): " + " ".join(text.split())[-300:]
+    c.cov["trusted_base"].append("coqchk -o over %s with -admit PP.Fold.Utf8Grammar (the Table 3-7 sweeps are checked by coqc + vm_compute only): %s" % (mod, "ok" if ok else "FAILED"))
+    if not ok:
+        c.broken.append("coqchk failed on %s: %s" % (mod, text[-400:]))
+    return ok
+
+
 def main(argv):
     c = Check("C19", argv)
     quick = c.tier == "quick"
@@ -136,6 +153,8 @@ def main(argv):
         c.broken.append("build of the repo working tree failed: " + blog[-800:])
         return c.finish(rule="build failed")
     c.proofs()
+    if not quick:
+        coqchk_except_sweeps(c)
     drv, dlog = build_driver("C19")
     if drv is None:
         c.broken.append("extraction/driver build failed: " + dlog[-600:])
@@ -171,7 +190,7 @@ def main(argv):
               "' S", "a' S b", "5 - YEAR - OLD", "& QUOT ;", "& Amp ;", "Æ' S", "' s\u00a0x", "' s\u2028", "' s\tx", "' s\u3000", "' s\u0085", "' s\u200b", "' s\u00a0", "5 - year - old\u00a0k",
               "5 - year - old", "5 - year - old ", "5 - year - olds", "5 - years - old\t", "''' s ", "````", "& amp ; quot ;", "& amp", "& amp ;;",
               "3{4{{", "ΑΣ ΑΣΑ", "İstanbul", "ǅ", "ﬁﬁ", "Å̧"]
-    for i in range(300 if quick else 5000):
+    for i in range(300 if quick else 20000):
         lines.append(rand_line(rng, toks, rng.choice((1, 2, 3, 4, 6, 9, 14))))
     lines = list(dict.fromkeys(lines))
     icu.need("S", [ord(ch) for l in lines for ch in l])
@@ -192,6 +211,28 @@ def main(argv):
             l, a, b = min(dis, key=lambda d: len(d[0]))
             c.broken.append("correspondence Flatten::Apply model vs util/utf8_icu.cc: %d disagreement(s); smallest: case %r (%r) model=%r impl=%r" % (
                 len(dis), l, unhx(l.split()[2]).decode("utf-8"), a[:200], b[:200]))
+    # ---- the conversions UnicodeString::fromUTF8 / toUTF8String on valid text: model vs ICU
+    if drv is not None:
+        ul = ["U " + hx(u8(l)) for l in lines]
+        rc, uo, err = run_lines(impl, ul)
+        rc2, um, err2 = run_lines(drv, ul)
+        if len(uo) != len(ul) or len(um) != len(ul):
+            c.broken.append("UTF-16 conversion runs died: %s %s" % (err[-200:], err2[-200:]))
+        else:
+            c.cov["traces_validated_against_impl"] += len(ul)
+            dis = [(l, a, b) for l, a, b in zip(ul, um, uo) if a != b]
+            if dis:
+                l, a, b = min(dis, key=lambda d: len(d[0]))
+                c.broken.append("correspondence fromUTF8/toUTF8String model vs ICU: %d disagreement(s); smallest %r model=%r icu=%r" % (len(dis), l, a[:200], b[:200]))
+            for l, o in zip(lines, uo):
+                # direct oracle: Python's UTF-16 encoding and the round trip
+                b = l.encode("utf-16-be")
+                want = "OK" + "".join(" %d" % (b[i] * 256 + b[i + 1]) for i in range(0, len(b), 2)) + " | " + hx(u8(l))
+                if o != want:
+                    c.violation("utf16-conversion: fromUTF8/toUTF8String(%r) = %s, expected %s" % (l, o[:120], want[:120]), {"op": "fromUTF8", "input": l, "impl": o, "expected": want})
+                    break
+    if not quick:
+        asan_lines(c, "hx_flatten", fl + ["L " + hx(u8(l)) for l in lines[:3000]] + ["N " + hx(u8(l)) for l in lines[:3000]], what="(Flatten::Apply, toLower, Normalize)")
     starts = {code: build_starts(P, var) for var, code in langs}
     if fout is not None:
         for (code, l), o in zip(fcases, fout):
@@ -215,7 +256,7 @@ def main(argv):
              ["' s", "5 - year - old", "``q''"], ["İ", "ΑΣ", "①"], ["a' S", "5 - YEAR - OLD x", "& QUOT ;"]]
     for f in fixed:
         inputs.append(f)
-    for i in range(12 if quick else 150):
+    for i in range(12 if quick else 400):
         inputs.append([rand_line(rng, toks, rng.choice((0, 1, 2, 3, 5, 8))) for _ in range(rng.choice((1, 2, 3, 4, 5, 7)))])
     truns = []
     for k, ls in enumerate(inputs):
@@ -242,7 +283,7 @@ def main(argv):
     outs = []
     for (fs, code, ls, data), want in zip(truns, expected):
         argv = [tool] + (["-l", code] if code else []) + [a for a, b in zip(("--lower", "--flatten", "--normalize"), fs) if b == "1"]
-        st, so, se = run_tool(argv, stdin=data, timeout=30)
+        st, so, se = run_limited(argv, stdin=data, timeout=30)
         outs.append((st, so))
         nflag = fs.count("1")
         c.count(("P", fs, code, data), nontrivial=len(data) > 1, bucket="tool/flags=%s/%d-lines" % (fs, min(len(ls), 4)))
@@ -272,6 +313,19 @@ def main(argv):
                 c.violation("%s: flags lower/flatten/normalize=%s language %s: line %d (counting from 1) %r came out as %r, expected %r" % (kind, fs, code, i + 1, src, g, w),
                             dict(rep, kind=kind, line_index=i + 1, got=g, expected=w))
                 break
+    # unsupported languages: the model says PNoLanguage (UnsupportedLanguageException), the tool must not end with 0
+    for code in ("xx", "EN", "e", "english", ""):
+        st, so, se = run_limited([tool, "-l", code, "--flatten"], stdin=u8("a\u201cb\n"), timeout=30)
+        c.count(("lang", code), nontrivial=True, bucket="tool/unsupported-language")
+        m_ok = True
+        if drv is not None:
+            rc, mo, err = run_lines(drv, ["P 010 %s %s" % (code or "-", hx(u8("a\u201cb\n")))])
+            m_ok = bool(mo) and mo[0] == "NOLANG"
+            if not m_ok:
+                c.broken.append("model accepts the unsupported language %r: %s" % (code, mo[:1]))
+        if st == 0 or st == "timeout":
+            c.violation("unsupported-language-accepted: process_unicode -l %r --flatten ended with status %s and printed %r" % (code, st, so[:60]),
+                        {"op": "process_unicode", "argv": ["-l", code, "--flatten"], "status": st, "stdout": so.decode("utf-8", "replace")})
     # model of the tool vs the tool
     if drv is not None:
         pl = ["P %s %s %s" % (fs, code or P["default_language"], hx(data)) for fs, code, ls, data in truns]
